@@ -14,6 +14,7 @@ import (
 //
 //	put(k,v) putFail(k,v) del(k) get(k) find(prefix,opts) notify(v) fail() abort() call(h,m,f,args) tryCall(h,m,f,args)
 //	cw(acct) burn(n) xfer(token,to,amount) destroy() update(nef,manifest) verify() safeGet(k) safePut(k,v)
+//	oracleCb(url,userData,code,result) oracleCbFail(url,userData,code,result)
 //	onNEP17Payment(from,amount,data) _deploy(data,isUpdate)
 //
 // variant changes one constant in the script so that several distinct contracts (different NEF checksums) exist.
@@ -81,6 +82,16 @@ func KContract(name string, variant int, opts ...asm.ManifestOpt) *asm.Contract 
 	m("xfer", 3, false, false)
 	b.InitSlot(0, 3).Op(opcode.PUSHNULL, opcode.LDARG2, opcode.LDARG1).Syscall("System.Runtime.GetExecutingScriptHash").Op(opcode.PUSH4, opcode.PACK)
 	b.Op(opcode.PUSH15).Str("transfer").Op(opcode.LDARG0).Syscall("System.Contract.Call").Op(opcode.RET)
+
+	// Oracle callbacks (url, userData, code, result), void: a storage item under the url, an event with the other three.
+	m("oracleCb", 4, true, false)
+	b.InitSlot(0, 4).Op(opcode.LDARG3, opcode.LDARG0).Syscall("System.Storage.GetContext").Syscall("System.Storage.Put")
+	b.Op(opcode.LDARG3, opcode.LDARG2, opcode.LDARG1, opcode.PUSH3, opcode.PACK, opcode.PUSH1, opcode.PACK).Str("E").Syscall("System.Runtime.Notify").Op(opcode.RET)
+	// The same under the key FailedCallbackPrefix+url, then a throw: neither the item nor the event may survive.
+	m("oracleCbFail", 4, true, false)
+	b.InitSlot(0, 4).Op(opcode.LDARG3).Str(FailedCallbackPrefix).Op(opcode.LDARG0, opcode.CAT).Syscall("System.Storage.GetContext").Syscall("System.Storage.Put")
+	b.Op(opcode.LDARG3, opcode.LDARG2, opcode.LDARG1, opcode.PUSH3, opcode.PACK, opcode.PUSH1, opcode.PACK).Str("E").Syscall("System.Runtime.Notify")
+	b.Str("oracleCbFail").Op(opcode.THROW)
 
 	m("destroy", 0, false, false)
 	b.Op(opcode.NEWARRAY0, opcode.PUSH15).Str("destroy").Bytes(nativehashes.ContractManagement.BytesBE()).Syscall("System.Contract.Call").Op(opcode.RET)
